@@ -55,6 +55,7 @@ type cworld struct {
 	maxMoved int
 	visible  map[string]bool // primaries the announced topology lets a client use
 	desc     map[string]any
+	ks       *keyspace // set by the parts whose clusters are static: lets closedForClient probe a node
 }
 
 type worldOpts struct {
@@ -398,6 +399,15 @@ func (w *cworld) checkRedirectsAndFinal(run *mon.Run, part string, is issued, hs
 			continue
 		}
 		next := hs[i+1]
+		if (kind == "MOVED" || kind == "ASK") && next.Node != addr && w.closedForClient(addr) {
+			// The attempt on the named node never left the client: its connection to that address is one the client has
+			// closed itself (listed known finding C19-K1: a same-address MOVED racing with a topology refresh), the
+			// retry then went elsewhere. Reported as that finding, identified by the ErrClosing probe, not as a redirect
+			// that was ignored.
+			run.Violation("node-unreachable-after-same-address-redirect", part+"|ErrClosing-while-client-open", wit(map[string]any{"hop": i, "named": addr, "next_received_by": next.Node,
+				"what": "a command sent straight to a slot of the named node fails with ErrClosing although the driver never closes or kills a connection in this part"}))
+			return
+		}
 		switch kind {
 		case "MOVED":
 			run.Observe("moved_followed", 1)
@@ -634,6 +644,24 @@ func partStatic(run *mon.Run) {
 	}
 }
 
+// closedForClient reports whether a plain read for a slot owned by addr fails with ErrClosing, i.e. whether the client
+// routes that node's slots to a connection it has closed itself (only in parts that set w.ks: static clusters in which
+// the driver never closes or kills a connection).
+func (w *cworld) closedForClient(addr string) bool {
+	if w.ks == nil {
+		return false
+	}
+	for i, s := range w.ks.slots {
+		if w.srv.SlotOwner(s) != addr {
+			continue
+		}
+		res := w.client.Do(context.Background(), w.client.B().Get().Key("{"+w.ks.tags[i]+"}probe").Build())
+		_, e := resultString(res)
+		return e == errClosingText
+	}
+	return false
+}
+
 // partScripted: scripted redirect chains and loops on a static cluster.
 func partScripted(run *mon.Run) {
 	rng := run.Rand("scripted")
@@ -655,6 +683,7 @@ func partScripted(run *mon.Run) {
 			continue
 		}
 		ks := newKeyspace(rng, 24)
+		w.ks = ks
 		for ci := 0; ci < cases; ci++ {
 			kind := []string{"Do", "DoWrite", "DoCache", "DoMulti"}[rng.Intn(4)]
 			from := w.srv.LogLen()
